@@ -50,7 +50,18 @@ def plan(k, snaps):
     return tot
 
 
-def sample(make, k, snaps, runs, hrnd):
+def interfere():
+    """Other library objects constructed and used in the middle of a stream (a user's program does that): must not
+    disturb the reservoir's random draws in any systematic way."""
+    from ixai.storage import TreeStorage, IntervalStorage
+    from ixai.utils.tracker import WelfordTracker
+    ts = TreeStorage(cat_feature_names=["c"], num_feature_names=["n"], max_depth=2, grace_period=5, seed=42)
+    ts.update({"c": 1, "n": 0.5})
+    IntervalStorage(size=2).update({"a": 1})
+    WelfordTracker().update(1.0)
+
+
+def sample(make, k, snaps, runs, hrnd, interference=False):
     incl = {n: collections.Counter() for n in snaps}
     subsets = {n: collections.Counter() for n in snaps}
     pairs = {n: collections.Counter() for n in snaps}
@@ -59,7 +70,10 @@ def sample(make, k, snaps, runs, hrnd):
     snapset = set(snaps)
     for _ in range(runs):
         st = make()
+        at = hrnd.randrange(nmax) if interference and hrnd.random() < 0.5 else -1
         for i in range(nmax):
+            if i == at:
+                interfere()
             st.update({"t": i})
             n = i + 1
             if n in snapset:
@@ -88,7 +102,7 @@ def pair_picks(k, n):
 
 def main(run):
     from ixai.storage import UniformReservoirStorage
-    run.rule = ("R independent UniformReservoirStorage instances per (k, snapshot grid); exact two-sided binomial cell "
+    run.rule = ("R independent UniformReservoirStorage instances per (k, snapshot grid), every third configuration with other library objects (TreeStorage with a seed, other storages, trackers) constructed and used mid-stream; exact two-sided binomial cell "
                 "tests with Bonferroni-split budget eps=1e-9 per run: inclusion indicator of individual arrivals "
                 "(k/n), every k-subset for k<=3,n<=7 (1/C(n,k)), pair co-inclusion k(k-1)/(n(n-1)), arrival-time "
                 "bucket of a harness-chosen random stored item (|bucket|/n); evaluations = independent storage "
@@ -107,7 +121,11 @@ def main(run):
         runs = rt if thorough else rq
         random.seed(run.shard_seed * 7919 + j)
         ct = CellTests(plan(k, snaps), eps=EPS / len(GRID))
-        incl, subsets, pairs, buck = sample(lambda: UniformReservoirStorage(size=k, store_targets=False), k, snaps, runs, hrnd)
+        interference = j % 3 == 1
+        if interference:
+            runs = runs // 3
+        incl, subsets, pairs, buck = sample(lambda: UniformReservoirStorage(size=k, store_targets=False), k, snaps, runs, hrnd, interference)
+        run.count("configs-with-interleaved-library-objects", int(interference))
         run.ok(runs, kind=f"k={k}")
         fails = []
         for n in snaps:
